@@ -158,6 +158,43 @@ def main(argv):
         pairs.append((src, (cfgs[0][1], cfgs[0][2])))
         if len(ck.samples) < 5 and name in ('assign_sub', 'aug_slice', 'def_defaults_decos', 'class_bases', 'nonlocal_assign'):
             ck.sample({"template": name, "source": src, "probe_log": o})
+    # ---- M-ORDER: probe programs; exec(source) = eval(converted) = Lean trace `tr` of the model's output
+    import order_probe, leandrv
+    n_probe = 150 if ck.tier == "quick" else 3000
+    pprogs = [order_probe.Gen(ck.rng).program() for _ in range(n_probe)]
+    m_bad = []
+    pjobs = []
+    for i, src in enumerate(pprogs):
+        cfg = gen_prog.CONFIGS[(i + ck.seed) % 8]
+        try:
+            conv = ol.convert_code_string(src, configs=gen_prog.mk_configs(ol, cfg))
+        except BaseException as e:
+            failing.append(("probe-program", src, cfg, f"conversion raised {type(e).__name__}: {e}", None)); continue
+        logs = {}
+        for inplace in (True, False):
+            l0, e0 = order_probe.run(src, "exec", inplace)
+            l1, e1 = order_probe.run(conv, "eval", inplace)
+            ck.case(f"probe|{inplace}|{cfg}|{src}", nontrivial=len(l0) >= 2)
+            ck.count("probe_programs")
+            if e0 is not None:
+                ck.count("probe_skipped_original_raises"); continue
+            if (l0, e0) != (l1, e1):
+                failing.append(("probe-program", src, cfg, f"in-place operators {inplace}: original {l0} converted {l1} {e1 or ''}", conv))
+            logs[inplace] = l1
+        pjobs.append((src, cfg, logs))
+    if b["driver_ok"] and pjobs:
+        reqs = lower_common.model_requests([(src, (cfg[1], cfg[2])) for src, cfg, _ in pjobs])
+        for (src, cfg, logs), r in zip(pjobs, leandrv.run_batch(reqs)):
+            if "tr_t" not in r:
+                m_bad.append((src, cfg, "model did not return a trace: " + str(r)[:200])); continue
+            for inplace, key in ((True, "tr_t"), (False, "tr_f")):
+                if inplace in logs and logs[inplace] != r[key]:
+                    m_bad.append((src, cfg, f"oracle {inplace}: Lean trace {r[key]} != CPython's probe log of the converted program {logs[inplace]}"))
+                    break
+            else:
+                ck.count("M_ORDER_agree")
+    if m_bad:
+        ck.broken.append(f"correspondence K(M-ORDER tr = CPython's evaluation order on the converted program): {len(m_bad)} programs differ, first: {m_bad[0][2][:300]} on {m_bad[0][0]!r}")
     k_bad = []
     if b["driver_ok"]:
         for src, cfg, ok, detail in lower_common.compare(ol, pairs):
@@ -181,8 +218,10 @@ def main(argv):
              "subscript targets plus attribute / slice / chained targets, def with defaults, keyword-only defaults and decorators, methods, class bases / keywords / "
              "decorators, if / elif / while / for headers, for targets, return, call arguments, walrus, conditional expression, chained comparison, displays, "
              "comprehension, f-string, global / nonlocal / class-body placements; exhaustive over the template list x 3 (quick) / 8 (thorough) option combinations; "
-             "non-trivial = at least two events",
-        extra={"R_failures": len(failing), "K_disagreements": len(k_bad), "templates": len(T) + len(extra)},
+             "non-trivial = at least two events; plus random module-level programs of simple statements whose subexpressions are probes (random nested / starred / "
+             "chained targets with structured values, annotated, augmented x 13 operators, defs with decorators and defaults) run with objects that have / lack "
+             "in-place operators: exec(source) = eval(converted) = the Lean trace of the model's output",
+        extra={"R_failures": len(failing), "K_disagreements": len(k_bad) + len(m_bad), "templates": len(T) + len(extra), "probe_programs": len(pprogs)},
         assumptions=["subexpressions other than probes are pure (names, constants)"])
 
 
